@@ -25,7 +25,11 @@ TRUSTED = ["harness/h_C10.cpp (builds the rtosc_arg_val_t array, calls rtosc_pri
            "rtosc_count_printed_arg_vals, rtosc_scan_arg_vals, rtosc_arg_vals_eq)",
            "the OCaml driver's libc-backed oracle for the value of a *decimal* floating point literal "
            "(dead in lossless mode: the value is overwritten by the exact one)"]
-ASSUMPTIONS = ["TZ=UTC; glibc printf/sscanf (its %a prints the shortest exact hex form)",
+ASSUMPTIONS = ["TZ=UTC (the harness sets it); glibc printf/sscanf (its %a prints the shortest exact hex form); "
+               "localtime()/mktime() of libc = TimeFmt.date_of_secs/secs_of_date (compared on every run: stream cal and "
+               "every printed/scanned time tag)",
+               "time tags: seconds 0 .. 2^32-1, fraction 0 or with at most 24 significant bits (the float it is printed through); "
+               "other fractions are rounded by the code (observation O1 in notes/C10.md)",
                "floats and doubles finite; chars and string bytes in 1..126; print options within the "
                "quantifier (line length 10..120, precision 0..9)"]
 
@@ -675,19 +679,24 @@ def classify(case, impl, failure):
 TECHNIQUE = ("Coq proofs about a token-level model of the printer, the syntax checker and the scanner "
              "(structural induction over the value list, per-token lemmas) + differential "
              "correspondence against the real functions under ASan/UBSan")
-LEVEL_TEXT = ("Partial. Model: printer (all scalar types, range conversion with threshold 5, N x value and a b ... c "
-              "forms, arrays incl. nested ones, messages), checker and scanner (incl. ellipsis handling, arrays, messages); "
-              "time tags are not modelled. Proved (Properties_C10.v, 25 theorems): for EVERY option record (compression on or "
-              "off) and unbounded lists of int32/int64 over the full range, chars, true/false/nil/inf, strings and quoted "
-              "symbols, colours, MIDI, symbols printed bare, blobs, and - with the lossless option - every finite float and "
-              "double: returned length, checker count = slots written, whole text consumed, slots expand to the input "
-              "(C10_roundtrip_any_partial, C10_message_any_partial; the same for a list that is one array: "
-              "C10_array_roundtrip_partial). Side conditions = the classifier's predicates: +0.0 and -0.0 of one type do not "
-              "both occur (nozmix, signed-zero-run), no '.' in strings/symbols/chars (coarser than ellipsis-in-string-before-range). "
-              "The hexadecimal float text round-trips bit-exactly for every finite float/double (C10_hexfloat_roundtrip, "
-              "C10_float_tokens; no oracle). Arrays among other values: recogniser half only (C10_mixed_reads_partial, side "
-              "condition = no range tail directly after an array = class range-after-array). Range conversion: C10_range_expand "
-              "(step runs of i/h/c, constant runs of every scalar incl. floats).")
+LEVEL_TEXT = ("Partial. Model: printer (all scalar types incl. time tags, range conversion with threshold 5, N x value and a b ... c "
+              "forms, arrays incl. nested ones, messages), checker and scanner (incl. ellipsis handling, arrays, time tags, messages). "
+              "Proved (Properties_C10.v, 34 theorems): for EVERY option record (compression on or off) and unbounded lists of values "
+              "AND ARRAYS OF VALUES in any order (C10_roundtrip_any_partial, C10_message_any_partial over lists of TS v / TA type "
+              "elements; runs directly after arrays, five or more equal arrays printed Nx[...], empty arrays) - values = int32/int64 "
+              "over the full range, chars, true/false/nil/inf, strings and quoted symbols, colours, MIDI, symbols printed bare, blobs, "
+              "and with the lossless option every finite float and double: returned length, checker count = slots written, whole text "
+              "consumed, slots expand (also inside arrays) to the input. Side conditions = the classifier's predicates: +0.0 and -0.0 "
+              "of one type do not both occur (nozmix over all values, signed-zero-run), no two dots in a row in strings/symbols "
+              "(coarser than ellipsis-in-string-before-range, which needs three), homogeneous non-nested arrays. No condition on the "
+              "position of arrays and runs is left for printed text; for hand-written text C10_mixed_reads_partial excludes exactly a "
+              "range tail behind an array whose last value has the tail's type and differs from its first value (D25). The hexadecimal "
+              "float text round-trips bit-exactly (C10_hexfloat_roundtrip, C10_float_tokens; no oracle). Time tags: model compared "
+              "with the code on every run; proved about the model: the calendar pair round-trips for every 32-bit number of seconds "
+              "(C10_timetag_calendar, no hypothesis), the fraction survives its float when it has at most 24 significant bits "
+              "(C10_timetag_fraction), the value is rebuilt from the printed fields (C10_timetag_value_partial); the text-level "
+              "reading of a time tag is shown for examples by computation and tied, not proved in general. Range conversion: "
+              "C10_range_expand.")
 LEVEL_NOTE = ("Trusted: Coq kernel, extraction, OCaml driver (incl. its libc oracle for decimal float literals, dead in lossless "
               "mode), harness, generators. FloatFmt.v: fmt_f/fmt_a = glibc printf and sc_f/to_bits = glibc sscanf are tied by "
               "the correspondence run, not proved; given them the float round trip is a theorem. See notes/C10.md (stage 6).")
